@@ -180,6 +180,29 @@ func (c *c09) errPayloadProbes(r *fw.Rec) {
 	}
 }
 
+// c09ExportShapes: module bodies whose export operand reaches the final instructions in different
+// ways (conditional and short-circuit operands, operands whose last code byte has a particular value:
+// 17 array elements, the 18th local), always yielding a container.
+func c09ExportShapes() []string {
+	locals := ""
+	for i := 0; i < 17; i++ {
+		locals += fmt.Sprintf("v%d := %d\n", i, i)
+	}
+	return []string{
+		c09ModSrc,
+		"a := [1, [2, 3], {k: 4}]\nb := {k: 7}\nc := true\nexport c ? a : immutable(b)\n",
+		"a := [1, [2, 3], {k: 4}]\nb := {k: 7, a: [5]}\nc := false\nexport c ? immutable(a) : b\n",
+		"a := {a: [5, 6], k: 7}\nexport a || immutable([])\n",
+		"a := [0, [1]]\nexport a && [a, immutable(a)][0]\n",
+		"export [1, 2, 3, 4, 5, 6, 7, 8, 9, 10, 11, 12, 13, 14, 15, 16, [17]]\n",
+		locals + "v17 := [1, [2], {k: 3}]\nexport v17\n",
+		locals + "v17 := {a: [1], k: 2}\nv18 := 0\nexport v17\n",
+		"a := [1, 2, [3]]\nexport (func() { return a })()\n",
+		"a := [1, 2, [3]]\nexport a[0:2] + [[9]]\n",
+		"m := {a: {a: 1}, k: [1]}\nexport {a: m.a, k: m.k, data: [m]}\n",
+	}
+}
+
 func (c *c09) RunCase(r *fw.Rec, cs fw.Case) {
 	if cs.Index == 0 {
 		c.errPayloadProbes(r)
@@ -223,6 +246,7 @@ func (c *c09) RunCase(r *fw.Rec, cs fw.Case) {
 		init = "imm = import(\"math\")"
 		desc = "builtin-module"
 	}
+	detail0 := ""
 	nsteps := 3 + rng.Intn(10)
 	var sb strings.Builder
 	sb.WriteString("if step == -1 { " + init + "; eqf = (src == undefined) || (imm == src) }\n")
@@ -245,7 +269,12 @@ func (c *c09) RunCase(r *fw.Rec, cs fw.Case) {
 	}
 	_ = s.Add("step", -1)
 	mm := stdModules()
-	mm.AddSourceModule("pm", []byte(c09ModSrc))
+	pmSrc := c09ModSrc
+	if family == 4 {
+		pmSrc = pick(rng, c09ExportShapes())
+		detail0 = pmSrc
+	}
+	mm.AddSourceModule("pm", []byte(pmSrc))
 	mm.AddSourceModule("pmdata", []byte("export {data: [1, [2, 3], {k: 4}], cfg: {a: {a: 1}, k: \"v\"}, a: [5, 6], k: 7}\n"))
 	ti := func(i int64) tengo.Object { return &tengo.Int{Value: i} }
 	mm.AddBuiltinModule("hostdata", map[string]tengo.Object{
@@ -261,6 +290,9 @@ func (c *c09) RunCase(r *fw.Rec, cs fw.Case) {
 		return
 	}
 	detail := map[string]interface{}{"script": src, "family": desc}
+	if detail0 != "" {
+		detail["module pm"] = detail0
+	}
 	if e := safely(func() error { return cp.RunContext(bg) }); e != nil {
 		if p, ok := isPanic(e); ok {
 			detail["stack"] = trunc(p.stack, 2000)
